@@ -85,6 +85,7 @@ func (c16) Generate(r *sim.Rand, tier string) *sim.Scenario {
 	if long {
 		n = r.Range(300, 1200) // a long-lived layer: hundreds of forwards, back-propagations, swaps and resets
 	}
+	pStack := []float64{0, 0, 0.05, 0.3}[r.Intn(4)]
 	pSwap := []float64{0.1, 0.3, 0.5}[r.Intn(3)]
 	pBatch1 := []float64{0.2, 0.2, 1}[r.Intn(3)]
 	var pending []int // forward handles not yet back-propagated
@@ -133,6 +134,13 @@ func (c16) Generate(r *sim.Rand, tier string) *sim.Scenario {
 				batch = 1
 			}
 			st := sim.Step{C: 0, Op: "forward", N: batch, F: randData(r, batch*D, true), B: r.Bool(0.5), Out: nf}
+			if D == O && r.Bool(pStack) {
+				st.Tag, st.N, st.I = "stack", 1, []int{r.Range(2, 6)}
+				if r.Bool(0.15) {
+					st.I[0] = r.Range(25, 70) // a graph with hundreds of contexts
+				}
+				st.F = st.F[:D]
+			}
 			sc.Steps = append(sc.Steps, st)
 			pending = append(pending, nf)
 			nf++
@@ -166,6 +174,7 @@ type fwdRec struct {
 	dead    bool
 	done    bool
 	tracked bool
+	stackS  []float64 // stacked application (batch 1, Outputs == Inputs): s_k = sum_d v_{k-1}[d] for every level k
 }
 
 func (prop c16) Execute(sc *sim.Scenario) *sim.Outcome {
@@ -477,6 +486,53 @@ func (prop c16) Execute(sc *sim.Scenario) *sim.Outcome {
 			f := &fwdRec{x: x, xv: xv, xtr: st.B, batch: batch, y: y, w: cur[0], b: cur[1]}
 			f.dead = cur[0].spent || cur[1].spent
 			f.tracked = !f.dead && (cur[0].tracked || cur[1].tracked || st.B)
+			if st.Tag == "stack" && len(st.I) == 1 && batch == 1 && D == O {
+				// the same layer applied K times in one graph: v_k[o] = W[o]*sum_d v_{k-1}[d] + B[o]
+				K := st.I[0]
+				v := cpF(xv)
+				va := make([]float64, D) // magnitude of the terms behind v (comparison scale)
+				for d := range va {
+					va[d] = math.Abs(v[d])
+				}
+				for k := 1; k <= K; k++ {
+					S, SA := 0.0, 0.0
+					for d := 0; d < D; d++ {
+						S += v[d]
+						SA += va[d]
+					}
+					f.stackS = append(f.stackS, S)
+					nv, nva := make([]float64, O), make([]float64, O)
+					for o := 0; o < O; o++ {
+						nv[o] = W[o]*S + B[o]
+						nva[o] = math.Abs(W[o])*SA + math.Abs(B[o])
+					}
+					v, va = nv, nva
+					for o := 0; o < O; o++ {
+						if !(va[o] < 1e120) {
+							out.Discard = "stack-out-of-range" // the formula itself leaves the range where comparing makes sense
+							return out
+						}
+					}
+					if k > 1 {
+						var err error
+						if y, err = fc.Forward(y); err != nil || y == nil {
+							out.Fail("forward-error", "%s: application %d of %d of the layer to its own output failed: %v", where, k, K, err)
+							return fin()
+						}
+					}
+				}
+				f.y = y
+				sim.Pause()
+				yv = sim.Values(y)
+				sim.Resume()
+				for o := 0; o < O; o++ {
+					if !(math.Abs(yv[o]-v[o]) <= 1e-11*float64(K)*va[o]+1e-300) {
+						out.Fail("forward-value", "%s: after %d applications y[0][%d] = %v, the formula applied %d times gives %v", where, K, o, yv[o], K, v[o])
+						return fin()
+					}
+				}
+				out.Probes["layer-applied-many-times-in-one-graph"]++
+			}
 			for len(fwds) <= st.Out {
 				fwds = append(fwds, nil)
 			}
@@ -510,7 +566,50 @@ func (prop c16) Execute(sc *sim.Scenario) *sim.Outcome {
 				return fin()
 			}
 			f.done = true
-			if f.tracked {
+			var stackDX, stackDXA float64
+			if f.tracked && len(f.stackS) > 1 {
+				// reverse sweep over the K applications (batch 1)
+				gv, ga := cpF(G[:O]), make([]float64, O)
+				for o := range ga {
+					ga[o] = math.Abs(gv[o])
+				}
+				for _, p := range []*pobj{f.w, f.b} {
+					if p.tracked && p.gs == nil {
+						p.gs, p.gm, p.ga = make([]float64, O), make([]float64, O), make([]float64, O)
+					}
+				}
+				for k := len(f.stackS) - 1; k >= 0; k-- {
+					gs, gsa := 0.0, 0.0
+					for o := 0; o < O; o++ {
+						if f.w.tracked {
+							f.w.gs[o] += gv[o] * f.stackS[k]
+							f.w.gm[o] += gv[o] * f.stackS[k]
+							f.w.ga[o] += ga[o] * math.Abs(f.stackS[k])
+						}
+						if f.b.tracked {
+							f.b.gs[o] += gv[o]
+							f.b.gm[o] += gv[o]
+							f.b.ga[o] += ga[o]
+						}
+						gs += gv[o] * f.w.vals[o]
+						gsa += ga[o] * math.Abs(f.w.vals[o])
+					}
+					for d := range gv {
+						gv[d], ga[d] = gs, gsa
+					}
+					stackDX, stackDXA = gs, gsa
+					if !(gsa < 1e200) {
+						out.Discard = "stack-out-of-range"
+						return out
+					}
+				}
+				for _, p := range []*pobj{f.w, f.b} {
+					if p.tracked {
+						p.hasGrad, p.spent = true, true
+					}
+				}
+			}
+			if f.tracked && len(f.stackS) <= 1 {
 				// expected contributions
 				for k, p := range []*pobj{f.w, f.b} {
 					if !p.tracked {
@@ -563,6 +662,9 @@ func (prop c16) Execute(sc *sim.Scenario) *sim.Outcome {
 					for o := 0; o < O; o++ {
 						want += G[b*O+o] * f.w.vals[o]
 						wa += math.Abs(G[b*O+o] * f.w.vals[o])
+					}
+					if len(f.stackS) > 1 {
+						want, wa = stackDX, stackDXA*float64(len(f.stackS))
 					}
 					for d := 0; d < D; d++ {
 						if !(math.Abs(xgv[b*D+d]-want) <= 1e-10*wa+1e-300) {
